@@ -13,6 +13,12 @@ import DialsModel.Props.C19
 namespace Dials.C11
 open Dials Dials.Tf
 
+/-- F22: the environment is a partial map from exact names to values, as the theorems below take it: the source
+consults it through `os.LookupEnv(name)` only (one exact-name lookup per field; the value is the variable's bytes as they
+are, an empty variable is present), never through a hand-split snapshot of `os.Environ()` or `os.Getenv`. -/
+theorem C11_environment_is_a_lookup : 1 ≤ Facts.envLookupCalls ∧ Facts.envOtherReads = 0 := by
+  decide
+
 /-- The variable consulted for a translated field is its `dialsenv` tag, after the optional prefix
 and an underscore. -/
 theorem C11_prefix (fuel : Nat) (chain : List Mangler) (pfx : String) (fs tfs : List FT)
